@@ -612,3 +612,11 @@ N.append({'id': 'py-mode-block-skips-when-already-as-requested', 'file': 'optree
         with __REGISTRY_LOCK:
             if prev != mode:
                 _C.set_dict_insertion_ordered(prev, namespace)""")]})
+
+# conditions written through their negations: `if (A && B)` -> `if (!(!(A) || !(B)))`, `x != y` ->
+# `!(x == y)` (44 + 54 C++ conditions; 22 + 55 Python tests; the rewritten tree passes the test
+# suite).  The first run raised alarms in fourteen checks (H1, H2, K7, K7py, K6py, P1, R2, W3, DC3
+# ...: every extractor that reads a comparison).  Both front ends now push negations inward
+# (negation normal form: cxx_frontend.normalise_negations, py_frontend.normalise_negations) and
+# the validation text of the arm descriptors is rendered the same way.
+N.append({'id': 'conditions-through-their-negations', 'generator': 'demorgan', 'file': None, 'edits': []})
